@@ -26,7 +26,8 @@ class Case(object):
                  checks='func', leak=False, backend='sat', timeout=300,
                  mem_gb=8, funcs=None, desc='', bounds=None, extra_flags=None,
                  safety_owner='C11', unwind_owner=None, object_bits=None,
-                 malloc_may_fail=False, family=None, reach_optional=False, instrument=None):
+                 malloc_may_fail=False, family=None, reach_optional=False, instrument=None, co_owned=None):
+        self.co_owned = co_owned            # regex over assertion tags of OTHER properties that this run also owns (e.g. representation invariants in the C11 run)
         self.instrument = instrument or []   # list of goto-instrument argument lists applied to the goto binary
         self.cid = cid
         self.harness = harness            # path relative to /verif/harness
@@ -501,6 +502,8 @@ def run_property(prop, tier, cases, jobs=None, meta=None, only=None, keep=False)
                 owner = f['owner']
                 if f['kind'] == 'unwind' and owner is None:
                     owner = prop  # decided by the native replay below: non-termination/failure => violation, else inconclusive
+                if owner != prop and c.co_owned and re.search(c.co_owned, f['tag']):
+                    owner = prop
                 k = match_known(known, owner, f['tag'], c.cid)
                 if k is not None:
                     known_hits.append((k, r, f))
